@@ -6,4 +6,5 @@ let table : (string * (Model.sexp -> Model.sexp)) list = [
   ("ver", Model.run_verify);
   ("rtmr", Model.run_rtmr);
   ("retry", Model.run_retry);
+  ("pck", Model.run_pck);
 ]
